@@ -117,9 +117,9 @@ PROPS["C05"] = dict(
 
 PROPS["C06"] = dict(
     title="Decoding arbitrary bytes never panics and what it accepts is canonical",
-    module="Cfdp.Props.C06u",
+    module="Cfdp.Props.C06v",
     namespace="Cfdp.Codec",
-    theorems=["C06_total", "C06_alloc", "C06_userop_total", "C06_report_total"],
+    theorems=["C06_total", "C06_alloc", "C06_userop_total", "C06_report_total", "C06_canon", "C06_userop_canon", "C06_report_canon"],
     engines=["codec", "udp"],
     design="§6 C06",
     technique="Lean 4 totality proof over the codec model (panic outcome unreachable) + differential correspondence on a malformed byte stream with allocation counting",
@@ -128,13 +128,18 @@ PROPS["C06"] = dict(
                 "wire-controlled allocation is below 64 KiB (C06_alloc); the decoders of the reserved CFDP messages (user_ops.rs) and of status reports never reach the panic outcome either (C06_userop_total, C06_report_total; Props/C06u.lean). 'Never loops' is Lean's termination check on the model decoders (fuel = input "
                 "length, each iteration consumes a byte). Tie to the code: 50k (thorough 2M) byte strings — every truncation and 9 single-byte mutations per "
                 "position of valid encodings, all prefixes <=4 over a 12-byte alphabet, forced length/flag fields, random tails — decoded by both; outcome class "
-                "(value rendering | error variant | panic) compared; a counting global allocator bounds the largest single allocation (256 KiB)."),
+                "(value rendering | error variant | panic) compared; a counting global allocator bounds the largest single allocation (256 KiB). "
+                "The second half of the property is a theorem too (Props/C06c.lean, Props/C06v.lean): for EVERY byte string, whatever PDU::decode accepts is - once its "
+                "length field is recomputed - well-formed in C05's sense (relen_wf: one specification lemma per decoder, 'what it returns is within the wire format's limits "
+                "and no longer than what it consumed', through headers, ids, LVs, names, TLVs, the Finished / Metadata / NAK loops), so C05's round trip applies and the "
+                "re-encoding decodes to the same PDU (C06_canon); likewise for the reserved CFDP messages, all 27 message types (C06_userop_canon), and status reports "
+                "(C06_report_canon). The statement is the one the implementation-level oracles canonical / userop_canonical check on every accepted string."),
     level_note=("Trusted: Lean kernel; differential tie; the harness is built with overflow-checks=on so that arithmetic overflow shows as a panic. "
-                "Canonical acceptance (re-encode with recomputed length, decode again, same PDU) is checked by the implementation-level oracle on every "
-                "accepted string but is not yet a theorem."),
+                "Canonical acceptance (re-encode with recomputed length, decode again, same PDU) is a theorem about the model decoders and, independently, an "
+                "implementation-level oracle on every accepted string."),
     rule=("udp engine as in C16 (cfdp-daemon/src/transport.rs is where received bytes are handed to PDU::decode: what UdpTransport::receive returns is compared with the Lean model of receive = decode of the datagram's own bytes). codec engine malformed stream (see level_text). Non-trivial = accepted by the implementation or rejected with a variant other than ReadError."),
     assumptions=[],
-    unproved=["C06_canon: decode bs = ok p -> decode (encode (relen p)) = ok (relen p) for every byte string is an oracle of the codec engine (canonical, userop_canonical), not a theorem: values the decoders accept need not be well-formed in C05's sense (e.g. a fault location beside NoError), so C05_pdu does not apply to them"],
+    unproved=[],
 )
 
 PROPS["C16"] = dict(
